@@ -457,6 +457,23 @@ theorem C11_nodes (nd : Nat → NodeV) (fuel : Nat) (nodes nodes' : List Nat) (t
   ⟨(nodes_roundtrip nd fuel nodes nodes' t t' final recs h hp hl hf).1,
    (nodes_roundtrip nd fuel nodes nodes' t t' final recs h hp hl hf).2.1⟩
 
+/-- **Primitives + PRIMINDICES + PRIMVERTS** (contiguous side arrays, offsets = lengths so far). -/
+theorem C11_primitives (ps : List PrimV) :
+    readPrims (writePrims [] [] ps).2.1 (writePrims [] [] ps).2.2 (writePrims [] [] ps).1 = .ok ps :=
+  prims_roundtrip ps
+
+/-- **texinfo + texdata + texture names.** The texdata table is keyed on the TexData object
+(`texdataTable idKey`), the name table case-insensitively (`fold` = `str.casefold`): every texinfo is
+read back with its 16 floats, flags and the reflectivity / size of its own texdata, and a material
+name that is the table's spelling of the same folded name (`normR fold` compares up to that). -/
+theorem C11_texinfo (vit : Bool) (fold : Nat → Nat) (tdv : Nat → TexDataV) (textures final : List Nat)
+    (infos : List TexInfoV) (h16 : ∀ i ∈ infos, i.f.length = 16)
+    (hfin : (writeTexinfo vit fold tdv textures infos).2.2 <+: final) :
+    ∃ rs, readTexinfo vit final (writeTexinfo vit fold tdv textures infos).1 (writeTexinfo vit fold tdv textures infos).2.1 = .ok rs ∧
+      rs.map (normR fold) = infos.map (fun i => normR fold (deepTex tdv i)) := by
+  obtain ⟨rs, h1, h2, _⟩ := texinfo_roundtrip vit fold tdv textures final infos h16 hfin
+  exact ⟨rs, h1, h2⟩
+
 /-- the records of brushes, sides, leafs and nodes have the shapes `C11_gen_xref_shapes` speaks about
 (so `C11_lump_bytes` applies to them) -/
 theorem C11_xref_record_shapes (vit : Bool) (sd : Nat → SideV) (t : BrushTabs) (bs : List BrushV)
